@@ -1,26 +1,124 @@
 package main
 
 import (
+	"flag"
 	"fmt"
-	"golang.org/x/tools/go/packages"
-	"golang.org/x/tools/go/ssa"
-	"golang.org/x/tools/go/ssa/ssautil"
 	"os"
+	"sort"
+
+	"govc/core"
 )
 
 func main() {
-	cfg := &packages.Config{Mode: packages.LoadAllSyntax &^ 0, Dir: "/repo", BuildFlags: []string{"-tags=verif"}}
-	cfg.Mode = packages.NeedName | packages.NeedFiles | packages.NeedSyntax | packages.NeedTypes | packages.NeedTypesInfo | packages.NeedImports | packages.NeedDeps | packages.NeedTypesSizes
-	pkgs, err := packages.Load(cfg, os.Args[1])
-	if err != nil {
-		panic(err)
+	if len(os.Args) < 2 {
+		fmt.Fprintln(os.Stderr, "usage: govc unit|check ...")
+		os.Exit(2)
 	}
-	prog, spkgs := ssautil.Packages(pkgs, ssa.NaiveForm|ssa.GlobalDebug|ssa.InstantiateGenerics)
-	_ = prog
-	spkgs[0].Build()
-	fn := spkgs[0].Func(os.Args[2])
-	if fn != nil {
+	defer core.CleanupTmp()
+	switch os.Args[1] {
+	case "unit":
+		unitCmd(os.Args[2:])
+	case "check":
+		os.Exit(checkCmd(os.Args[2:]))
+	case "ssa":
+		ssaCmd(os.Args[2:])
+	default:
+		fmt.Fprintln(os.Stderr, "unknown command", os.Args[1])
+		os.Exit(2)
+	}
+}
+
+func ssaCmd(args []string) {
+	fs := flag.NewFlagSet("ssa", flag.ExitOnError)
+	repo := fs.String("repo", "/repo", "repository root")
+	pkg := fs.String("pkg", ".", "package directory relative to the repo")
+	fs.Parse(args)
+	e, err := core.Load(*repo, *pkg)
+	if err != nil {
+		fmt.Fprintln(os.Stderr, err)
+		os.Exit(2)
+	}
+	for _, k := range fs.Args() {
+		fn := e.Func(k)
+		if fn == nil {
+			fmt.Println("no function", k)
+			continue
+		}
 		fn.WriteTo(os.Stdout)
 	}
-	fmt.Println(len(pkgs))
+}
+
+// unitCmd: development helper, verifies the named units and prints every obligation.
+func unitCmd(args []string) {
+	fs := flag.NewFlagSet("unit", flag.ExitOnError)
+	repo := fs.String("repo", "/repo", "repository root")
+	pkg := fs.String("pkg", ".", "package directory relative to the repo")
+	timeout := fs.Int("timeout", 10000, "per-obligation timeout (ms)")
+	dump := fs.String("dump", "", "write the SMT query of the named obligation to stdout")
+	verbose := fs.Bool("v", false, "print discharged obligations too")
+	fs.Parse(args)
+	e, err := core.Load(*repo, *pkg)
+	if err != nil {
+		fmt.Fprintln(os.Stderr, err)
+		os.Exit(2)
+	}
+	keys := fs.Args()
+	if len(keys) == 0 {
+		for _, c := range e.ContractList {
+			keys = append(keys, c.Key)
+		}
+	}
+	bad := 0
+	for _, k := range keys {
+		res := e.VerifyUnit(k, *timeout, 8, false, *dump)
+		fmt.Printf("== %s: %d obligations, gen %dms solve %dms\n", res.Unit, len(res.Obls), res.GenMs, res.SolveMs)
+		if res.Error != "" {
+			fmt.Printf("   ERROR: %s\n", res.Error)
+			bad++
+		}
+		for _, o := range res.Obls {
+			ok := (o.Status == "unsat") != o.Vacuity
+			if o.Vacuity && o.Status == "sat" {
+				ok = true
+			}
+			if !ok {
+				bad++
+			}
+			if !ok || *verbose {
+				fmt.Printf("   %-7s %-60s %s [%s %dms] %s\n", o.Status, o.Name, o.Pos, o.Solver, o.Ms, o.Clause)
+				if !ok && !o.Vacuity {
+					var ks []string
+					for k := range o.Model {
+						ks = append(ks, k)
+					}
+					sort.Strings(ks)
+					for _, in := range o.Inputs {
+						if v, has := o.Model[in.Term.S]; has {
+							fmt.Printf("           %s = %s\n", in.Name, v)
+						}
+					}
+					if o.Status != "sat" {
+						fmt.Printf("           %s\n", o.Output)
+					}
+				}
+			}
+		}
+		var ab []string
+		for k, n := range res.Abstracted {
+			ab = append(ab, fmt.Sprintf("%s x%d", k, n))
+		}
+		sort.Strings(ab)
+		for _, a := range ab {
+			fmt.Printf("   abstracted: %s\n", a)
+		}
+	}
+	if bad > 0 {
+		core.CleanupTmp()
+		os.Exit(1)
+	}
+}
+
+func checkCmd(args []string) int {
+	fmt.Fprintln(os.Stderr, "check: not implemented yet")
+	return 2
 }
